@@ -910,7 +910,7 @@ Qed.
 (* For every history, the property checker (the one that is evaluated on the implementation's
    observations) finds nothing to object to in the model's own behaviour. *)
 Theorem checker_accepts_model i roles pr evs :
-  case_violations (mkCase i 0 roles pr evs (run_obs pr init evs)) = [].
+  case_violations (mkCase i 0 roles pr evs (run_obs pr init evs) [] []) = [].
 Proof.
   unfold case_violations. cbn [c_mode N.eqb probes Check_C15.evs obs].
   rewrite (trace_clauses_model pr evs init abs_init wf_init) by (repeat split). reflexivity.
@@ -923,14 +923,527 @@ Proof.
   cbn [abs_run]. change (run_from s (e :: l)) with (run_from (fst (step s e)) l).
   apply IH; auto using wf_step, R_step.
 Qed.
-Theorem checker_accepts_final i m roles pr evs : m <> 0 ->
-  case_violations (mkCase i m roles pr evs [final_obs pr evs]) = [].
+Theorem checker_accepts_final i roles pr evs :
+  case_violations (mkCase i 1 roles pr evs [final_obs pr evs] [] []) = [].
 Proof.
-  intros Hm. unfold case_violations. cbn [c_mode probes Check_C15.evs obs].
-  destruct (N.eqb_spec m 0) as [E|_]; [contradiction|].
+  unfold case_violations. cbn [c_mode probes Check_C15.evs obs N.eqb Pos.eqb].
   unfold final_clauses, final_obs.
   destruct (abs_run_R evs init abs_init wf_init) as [Hwf HR]; [repeat split|].
   fold (run evs) in Hwf, HR. rewrite (view_ok_model (run evs) _ pr [] Hwf HR). reflexivity.
+Qed.
+
+(* ================= Connected at the granularity of its critical sections ================= *)
+(* ---------- bookkeeping ---------- *)
+Lemma srun_from_app s l1 l2 : srun_from s (l1 ++ l2) = srun_from (srun_from s l1) l2.
+Proof. unfold srun_from. apply fold_left_app. Qed.
+Lemma srun_snoc l e : srun (l ++ [e]) = fst (sstep (srun l) e).
+Proof. unfold srun. rewrite srun_from_app. reflexivity. Qed.
+
+Lemma call_effects_from_app c l1 : forall s l2,
+  call_effects_from s c (l1 ++ l2) = call_effects_from s c l1 ++ call_effects_from (srun_from s l1) c l2.
+Proof.
+  induction l1 as [|e l1 IH]; intros s l2; [reflexivity|].
+  cbn [app call_effects_from]. rewrite IH, app_assoc. reflexivity.
+Qed.
+Lemma call_effects_snoc c l e :
+  call_effects c (l ++ [e]) = call_effects c l ++ (if is_call c e then snd (sstep (srun l) e) else []).
+Proof. unfold call_effects. rewrite call_effects_from_app. cbn [call_effects_from]. rewrite app_nil_r. reflexivity. Qed.
+
+Lemma find_set_same c k cs : find_call c cs <> None -> find_call c (set_call c k cs) = Some k.
+Proof.
+  induction cs as [|[d k0] cs IH]; cbn; [congruence|].
+  destruct (N.eqb_spec d c) as [E|E]; cbn.
+  - intros _. subst d. rewrite N.eqb_refl. reflexivity.
+  - intros H. destruct (N.eqb_spec d c); [contradiction|]. apply IH, H.
+Qed.
+Lemma find_set_other c d k cs : d <> c -> find_call d (set_call c k cs) = find_call d cs.
+Proof.
+  intros Hne. induction cs as [|[d0 k0] cs IH]; cbn; [reflexivity|].
+  destruct (N.eqb_spec d0 c) as [E|E]; cbn.
+  - subst d0. destruct (N.eqb_spec c d); [congruence|reflexivity].
+  - destruct (d0 =? d); [reflexivity|exact IH].
+Qed.
+
+(* the base state of a step history is well formed *)
+Lemma wf_sstep s e : wf (base s) -> wf (base (fst (sstep s e))).
+Proof.
+  intros H. destruct e as [c p lk ann|c|c|c|c|e]; cbn [sstep].
+  - destruct (find_call c (calls s)); cbn; [exact H|apply wf_add, H].
+  - destruct (find_call c (calls s)) as [k|]; [|exact H]. destruct (k_pc k =? 0); exact H.
+  - destruct (find_call c (calls s)) as [k|]; [|exact H]. destruct (k_pc k =? 1); exact H.
+  - destruct (find_call c (calls s)) as [k|]; [|exact H]. destruct (k_pc k =? 2); [|exact H].
+    destruct (p_role (k_peer k) =? ROLE_PROVIDER)%Z; [|exact H]. destruct (tbl_get (k_lk k) (k_peer k)); exact H.
+  - destruct (find_call c (calls s)) as [k|]; [|exact H]. destruct (k_pc k =? 3); [|exact H].
+    destruct (k_fan k); [exact H|]. destruct (tbl_get (k_lk k) (k_peer k)); exact H.
+  - cbn. apply wf_step, H.
+Qed.
+Lemma wf_srun l : wf (base (srun l)).
+Proof.
+  induction l as [|e l IH] using rev_ind; [exact wf_init|]. rewrite srun_snoc. apply wf_sstep, IH.
+Qed.
+
+(* ---------- what is known about a call record after any step history ---------- *)
+Definition started (l : list sevent) (c : N) (k : call) : Prop :=
+  exists l1 l2, l = l1 ++ SAdd c (k_peer k) (k_lk k) (k_ann k) :: l2.
+Definition provs_read (l : list sevent) (c : N) (k : call) : Prop :=
+  exists pre post, l = pre ++ SReadProviders c :: post /\ k_provs k = get_peers ROLE_PROVIDER (base (srun pre)).
+Definition bids_read (l : list sevent) (c : N) (k : call) : Prop :=
+  exists pre post, l = pre ++ SReadBidders c :: post /\ incl (k_fan k) (get_peers ROLE_BIDDER (base (srun pre))).
+
+Definition call_inv (l : list sevent) (c : N) (k : call) : Prop :=
+  started l c k /\ (1 <= k_pc k -> provs_read l c k)
+  /\ (k_pc k = 3 -> p_role (k_peer k) = ROLE_PROVIDER /\ bids_read l c k).
+
+Lemma started_snoc l e c k : started l c k -> started (l ++ [e]) c k.
+Proof. intros [l1 [l2 E]]. exists l1, (l2 ++ [e]). subst l. rewrite <- app_assoc. reflexivity. Qed.
+Lemma provs_read_snoc l e c k : provs_read l c k -> provs_read (l ++ [e]) c k.
+Proof. intros [l1 [l2 [E H]]]. exists l1, (l2 ++ [e]). split; [subst l; rewrite <- app_assoc; reflexivity|exact H]. Qed.
+Lemma bids_read_snoc l e c k : bids_read l c k -> bids_read (l ++ [e]) c k.
+Proof. intros [l1 [l2 [E H]]]. exists l1, (l2 ++ [e]). split; [subst l; rewrite <- app_assoc; reflexivity|exact H]. Qed.
+Lemma call_inv_snoc l e c k : call_inv l c k -> call_inv (l ++ [e]) c k.
+Proof.
+  intros [H1 [H2 H3]]. split; [apply started_snoc, H1|]. split.
+  - intros H. apply provs_read_snoc, H2, H.
+  - intros H. destruct (H3 H) as [Hr Hb]. split; [exact Hr|apply bids_read_snoc, Hb].
+Qed.
+
+Theorem calls_inv l : forall c k, find_call c (calls (srun l)) = Some k -> call_inv l c k.
+Proof.
+  induction l as [|e l IH] using rev_ind; [intros c k H; discriminate|].
+  intros c k. rewrite srun_snoc. destruct e as [d p lk ann|d|d|d|d|e]; cbn [sstep].
+  - destruct (find_call d (calls (srun l))) eqn:Ed; cbn [fst calls].
+    + intros H. apply call_inv_snoc, IH, H.
+    + cbn [find_call]. destruct (N.eqb_spec d c) as [->|Hne].
+      * intros H. inversion H; subst k. split; [exists l, []; reflexivity|].
+        cbn [k_pc]. split; [intros H1; lia|intros H1; discriminate].
+      * intros H. apply call_inv_snoc, IH, H.
+  - destruct (find_call d (calls (srun l))) as [k0|] eqn:Ed; [|intros H; apply call_inv_snoc, IH, H].
+    destruct (N.eqb_spec (k_pc k0) 0) as [Epc|Epc]; [|intros H; apply call_inv_snoc, IH, H]. cbn [fst calls].
+    destruct (N.eq_dec d c) as [->|Hne].
+    + rewrite find_set_same by congruence. intros H. inversion H; subst k. clear H.
+      destruct (IH c k0 Ed) as [H1 _]. split; [apply started_snoc, H1|]. cbn [k_pc k_provs]. split.
+      * intros _. exists l, []. split; reflexivity.
+      * intros H; discriminate.
+    + rewrite find_set_other by congruence. intros H. apply call_inv_snoc, IH, H.
+  - destruct (find_call d (calls (srun l))) as [k0|] eqn:Ed; [|intros H; apply call_inv_snoc, IH, H].
+    destruct (N.eqb_spec (k_pc k0) 1) as [Epc|Epc]; [|intros H; apply call_inv_snoc, IH, H]. cbn [fst calls].
+    destruct (N.eq_dec d c) as [->|Hne].
+    + rewrite find_set_same by congruence. intros H. inversion H; subst k. clear H.
+      destruct (IH c k0 Ed) as [H1 [H2 _]]. split; [apply started_snoc, H1|]. cbn [k_pc k_provs]. split.
+      * intros _. apply (provs_read_snoc l _ c k0), H2. lia.
+      * intros H; discriminate.
+    + rewrite find_set_other by congruence. intros H. apply call_inv_snoc, IH, H.
+  - destruct (find_call d (calls (srun l))) as [k0|] eqn:Ed; [|intros H; apply call_inv_snoc, IH, H].
+    destruct (N.eqb_spec (k_pc k0) 2) as [Epc|Epc]; [|intros H; apply call_inv_snoc, IH, H].
+    destruct (Z.eqb_spec (p_role (k_peer k0)) ROLE_PROVIDER) as [Er|Er]; [|intros H; apply call_inv_snoc, IH, H].
+    destruct (IH d k0 Ed) as [H1 [H2 _]].
+    destruct (tbl_get (k_lk k0) (k_peer k0)); cbn [fst calls];
+      (destruct (N.eq_dec d c) as [->|Hne];
+       [rewrite find_set_same by congruence; intros H; inversion H; subst k; clear H;
+        split; [apply started_snoc, H1|]; cbn [k_pc k_provs k_peer k_fan]; split;
+        [intros _; apply (provs_read_snoc l _ c k0), H2; lia|]
+       |rewrite find_set_other by congruence; intros H; apply call_inv_snoc, IH, H]).
+    + intros _. split; [exact Er|]. exists l, []. split; [reflexivity|apply incl_refl].
+    + intros H; discriminate.
+  - destruct (find_call d (calls (srun l))) as [k0|] eqn:Ed; [|intros H; apply call_inv_snoc, IH, H].
+    destruct (N.eqb_spec (k_pc k0) 3) as [Epc|Epc]; [|intros H; apply call_inv_snoc, IH, H].
+    destruct (k_fan k0) as [|b rest] eqn:Ef; [intros H; apply call_inv_snoc, IH, H|].
+    destruct (tbl_get (k_lk k0) (k_peer k0)); [|intros H; apply call_inv_snoc, IH, H]. cbn [fst calls].
+    destruct (N.eq_dec d c) as [->|Hne].
+    + rewrite find_set_same by congruence. intros H. inversion H; subst k. clear H.
+      destruct (IH c k0 Ed) as [H1 [H2 H3]]. destruct (H3 Epc) as [Hr [pre [post [E Hi]]]].
+      split; [apply started_snoc, H1|]. cbn [k_pc k_provs k_peer k_fan]. split.
+      * intros _. apply (provs_read_snoc l _ c k0), H2. lia.
+      * intros _. split; [exact Hr|]. exists pre, (post ++ [SFanout c]).
+        split; [subst l; rewrite <- app_assoc; reflexivity|].
+        intros x Hx. apply Hi. rewrite Ef. right; exact Hx.
+    + rewrite find_set_other by congruence. intros H. apply call_inv_snoc, IH, H.
+  - cbn [fst calls]. intros H. apply call_inv_snoc, IH, H.
+Qed.
+
+Lemma In_announce_broadcast ann t recs t' recs' :
+  In (Announce t' recs') (broadcast ann t recs) -> t' = t /\ recs' = recs.
+Proof.
+  unfold broadcast. destruct (stream_opens ann t); cbn; intros [H|H]; try (inversion H; auto; fail);
+  try destruct H as [H|[]]; try discriminate; try contradiction.
+Qed.
+
+(* SOUNDNESS of a call's announcements under arbitrary interleaving *)
+Definition sound_announce (l : list sevent) (c : N) (t : peer) (recs : list record) : Prop :=
+  exists p lk ann l1 l2, l = l1 ++ SAdd c p lk ann :: l2 /\
+  ( (t = p /\ recs <> [] /\
+     forall a u, In (a, u) recs ->
+       a <> p_addr p /\ tbl_get lk (mkPeer a ROLE_PROVIDER) = Some u /\
+       exists pre post, l = pre ++ SReadProviders c :: post
+                        /\ In (mkPeer a ROLE_PROVIDER) (get_peers ROLE_PROVIDER (base (srun pre))))
+    \/
+    (p_role p = ROLE_PROVIDER /\ exists u, tbl_get lk p = Some u /\ recs = [(p_addr p, u)] /\
+     exists pre post, l = pre ++ SReadBidders c :: post /\ In t (get_peers ROLE_BIDDER (base (srun pre)))) ).
+
+Lemma sound_announce_snoc l e c t recs : sound_announce l c t recs -> sound_announce (l ++ [e]) c t recs.
+Proof.
+  intros [p [lk [ann [l1 [l2 [E H]]]]]]. exists p, lk, ann, l1, (l2 ++ [e]).
+  split; [subst l; rewrite <- app_assoc; reflexivity|].
+  destruct H as [[H1 [H2 H3]]|[H1 [u [H2 [H3 [pre [post [E2 H4]]]]]]]].
+  - left. split; [exact H1|]. split; [exact H2|]. intros a u Hin. destruct (H3 a u Hin) as [Ha [Hl [pre [post [E2 Hi]]]]].
+    split; [exact Ha|]. split; [exact Hl|]. exists pre, (post ++ [e]).
+    split; [rewrite E2, <- app_assoc; reflexivity|exact Hi].
+  - right. split; [exact H1|]. exists u. split; [exact H2|]. split; [exact H3|].
+    exists pre, (post ++ [e]). split; [rewrite E2, <- app_assoc; reflexivity|exact H4].
+Qed.
+
+Theorem step_sound l : forall c t recs, In (Announce t recs) (call_effects c l) -> sound_announce l c t recs.
+Proof.
+  induction l as [|e l IH] using rev_ind; [intros c t recs []|].
+  intros c t recs. rewrite call_effects_snoc. intros H. apply in_app_or in H. destruct H as [H|H].
+  { apply sound_announce_snoc, IH, H. }
+  unfold is_call in H. destruct e as [d p lk ann|d|d|d|d|e]; cbn [call_of] in H;
+    try (destruct (N.eqb_spec d c) as [->|Hne]; [|destruct H]); try (destruct H; fail); cbn [sstep] in H.
+  - destruct (find_call c (calls (srun l))); destruct H.
+  - destruct (find_call c (calls (srun l))) as [k|]; [|destruct H]. destruct (k_pc k =? 0); destruct H.
+  - destruct (find_call c (calls (srun l))) as [k|] eqn:Ec; [|destruct H].
+    destruct (N.eqb_spec (k_pc k) 1) as [Epc|Epc]; [|destruct H]. cbn [snd] in H.
+    destruct (records_for (k_peer k) (k_lk k) (k_provs k)) as [|r0 rs] eqn:Er; [destruct H|].
+    apply In_announce_broadcast in H. destruct H as [-> ->].
+    destruct (calls_inv l c k Ec) as [[l1 [l2 E1]] [H2 _]].
+    destruct H2 as [pre [post [E2 Hs]]]; [lia|].
+    exists (k_peer k), (k_lk k), (k_ann k), l1, (l2 ++ [SAnnounce c]).
+    split; [rewrite E1, <- app_assoc; reflexivity|]. left. split; [reflexivity|]. split; [discriminate|].
+    intros a u Hin. rewrite <- Er in Hin. apply In_records_for in Hin.
+    destruct Hin as [q [Hq [Ha [Hne Hlk]]]]. rewrite Hs in Hq.
+    assert (Hrole : p_role q = ROLE_PROVIDER).
+    { destruct (wf_srun pre) as [[HP _] _]. apply HP. exact Hq. }
+    assert (Eq : q = mkPeer a ROLE_PROVIDER) by (destruct q; cbn in *; subst; reflexivity). subst q.
+    split; [exact Hne|]. split; [exact Hlk|]. exists pre, (post ++ [SAnnounce c]).
+    split; [rewrite E2, <- app_assoc; reflexivity|exact Hq].
+  - destruct (find_call c (calls (srun l))) as [k|]; [|destruct H]. destruct (k_pc k =? 2); [|destruct H].
+    destruct (p_role (k_peer k) =? ROLE_PROVIDER)%Z; [|destruct H]. destruct (tbl_get (k_lk k) (k_peer k)); destruct H.
+  - destruct (find_call c (calls (srun l))) as [k|] eqn:Ec; [|destruct H].
+    destruct (N.eqb_spec (k_pc k) 3) as [Epc|Epc]; [|destruct H].
+    destruct (k_fan k) as [|b rest] eqn:Ef; [destruct H|].
+    destruct (tbl_get (k_lk k) (k_peer k)) as [u|] eqn:Elk; [|destruct H]. cbn [snd] in H.
+    apply In_announce_broadcast in H. destruct H as [-> ->].
+    destruct (calls_inv l c k Ec) as [[l1 [l2 E1]] [_ H3]]. destruct (H3 Epc) as [Hr [pre [post [E2 Hi]]]].
+    exists (k_peer k), (k_lk k), (k_ann k), l1, (l2 ++ [SFanout c]).
+    split; [rewrite E1, <- app_assoc; reflexivity|]. right. split; [exact Hr|]. exists u.
+    split; [exact Elk|]. split; [reflexivity|]. exists pre, (post ++ [SFanout c]).
+    split; [rewrite E2, <- app_assoc; reflexivity|]. apply Hi. rewrite Ef. left; reflexivity.
+Qed.
+
+(* how one step changes the record of call c *)
+Definition same_id (k' k : call) : Prop := k_peer k' = k_peer k /\ k_lk k' = k_lk k /\ k_ann k' = k_ann k.
+
+Lemma call_step s e c k : find_call c (calls s) = Some k ->
+  exists k', find_call c (calls (fst (sstep s e))) = Some k' /\ same_id k' k /\
+  ( (k' = k /\ (is_call c e = true -> snd (sstep s e) = []))
+    \/ (e = SReadProviders c /\ k_pc k = 0 /\ k_pc k' = 1 /\ k_provs k' = get_peers ROLE_PROVIDER (base s))
+    \/ (e = SAnnounce c /\ k_pc k = 1 /\ k_pc k' = 2 /\ k_provs k' = k_provs k /\
+        snd (sstep s e) = match records_for (k_peer k) (k_lk k) (k_provs k) with
+                          | [] => [] | recs => broadcast (k_ann k) (k_peer k) recs end)
+    \/ (e = SReadBidders c /\ k_pc k = 2 /\ p_role (k_peer k) = ROLE_PROVIDER /\ k_provs k' = k_provs k /\
+        ((exists u, tbl_get (k_lk k) (k_peer k) = Some u /\ k_pc k' = 3 /\ k_fan k' = get_peers ROLE_BIDDER (base s))
+         \/ (tbl_get (k_lk k) (k_peer k) = None /\ k_pc k' = 4)))
+    \/ (e = SFanout c /\ k_pc k = 3 /\ k_pc k' = 3 /\ k_provs k' = k_provs k /\
+        exists b rest u, k_fan k = b :: rest /\ k_fan k' = rest /\ tbl_get (k_lk k) (k_peer k) = Some u /\
+                         snd (sstep s e) = broadcast (k_ann k) b [(p_addr (k_peer k), u)]) ).
+Proof.
+  intros Hc.
+  assert (Hsame : exists k', find_call c (calls s) = Some k' /\ same_id k' k /\ k' = k)
+    by (exists k; repeat split; auto).
+  assert (Hother : forall d k1, d <> c -> exists k', find_call c (set_call d k1 (calls s)) = Some k' /\ same_id k' k /\ k' = k)
+    by (intros d k1 Hne; exists k; rewrite find_set_other by congruence; repeat split; auto).
+  destruct e as [d p lk ann|d|d|d|d|e]; cbn [sstep].
+  - destruct (find_call d (calls s)) eqn:Ed; cbn [fst snd calls].
+    + exists k. split; [exact Hc|]. split; [repeat split|]. left. auto.
+    + exists k. cbn [find_call]. destruct (N.eqb_spec d c) as [->|Hne]; [congruence|].
+      split; [exact Hc|]. split; [repeat split|]. left. auto.
+  - destruct (find_call d (calls s)) as [k0|] eqn:Ed;
+      [|exists k; split; [exact Hc|]; split; [repeat split|]; left; auto].
+    destruct (N.eqb_spec (k_pc k0) 0) as [Epc|Epc];
+      [|exists k; split; [exact Hc|]; split; [repeat split|]; left; auto].
+    cbn [fst snd calls]. destruct (N.eq_dec d c) as [->|Hne].
+    + rewrite Hc in Ed. inversion Ed; subst k0. eexists. rewrite find_set_same by congruence.
+      split; [reflexivity|]. split; [repeat split|]. right; left. cbn. auto.
+    + destruct (Hother d (mkCall (k_peer k0) (k_lk k0) (k_ann k0) 1 (get_peers ROLE_PROVIDER (base s)) []) Hne)
+        as [k' [H1 [H2 H3]]]. exists k'. split; [exact H1|]. split; [exact H2|]. left. split; [exact H3|].
+      unfold is_call; cbn. destruct (N.eqb_spec d c); [contradiction|discriminate].
+  - destruct (find_call d (calls s)) as [k0|] eqn:Ed;
+      [|exists k; split; [exact Hc|]; split; [repeat split|]; left; auto].
+    destruct (N.eqb_spec (k_pc k0) 1) as [Epc|Epc];
+      [|exists k; split; [exact Hc|]; split; [repeat split|]; left; auto].
+    cbn [fst snd calls]. destruct (N.eq_dec d c) as [->|Hne].
+    + rewrite Hc in Ed. inversion Ed; subst k0. eexists. rewrite find_set_same by congruence.
+      split; [reflexivity|]. split; [repeat split|]. right; right; left. cbn. auto.
+    + destruct (Hother d (mkCall (k_peer k0) (k_lk k0) (k_ann k0) 2 (k_provs k0) []) Hne)
+        as [k' [H1 [H2 H3]]]. exists k'. split; [exact H1|]. split; [exact H2|]. left. split; [exact H3|].
+      unfold is_call; cbn. destruct (N.eqb_spec d c); [contradiction|discriminate].
+  - destruct (find_call d (calls s)) as [k0|] eqn:Ed;
+      [|exists k; split; [exact Hc|]; split; [repeat split|]; left; auto].
+    destruct (N.eqb_spec (k_pc k0) 2) as [Epc|Epc];
+      [|exists k; split; [exact Hc|]; split; [repeat split|]; left; auto].
+    destruct (Z.eqb_spec (p_role (k_peer k0)) ROLE_PROVIDER) as [Er|Er];
+      [|exists k; split; [exact Hc|]; split; [repeat split|]; left; auto].
+    destruct (tbl_get (k_lk k0) (k_peer k0)) as [u|] eqn:Elk; cbn [fst snd calls];
+      (destruct (N.eq_dec d c) as [->|Hne];
+       [rewrite Hc in Ed; inversion Ed; subst k0; eexists; rewrite find_set_same by congruence;
+        split; [reflexivity|]; split; [repeat split|]; right; right; right; left; cbn;
+        repeat split; auto
+       |]).
+    + left. exists u. auto.
+    + destruct (Hother d (mkCall (k_peer k0) (k_lk k0) (k_ann k0) 3 (k_provs k0) (get_peers ROLE_BIDDER (base s))) Hne)
+        as [k' [H1 [H2 H3]]]. exists k'. split; [exact H1|]. split; [exact H2|]. left. split; [exact H3|].
+      unfold is_call; cbn. destruct (N.eqb_spec d c); [contradiction|discriminate].
+    + destruct (Hother d (mkCall (k_peer k0) (k_lk k0) (k_ann k0) 4 (k_provs k0) []) Hne)
+        as [k' [H1 [H2 H3]]]. exists k'. split; [exact H1|]. split; [exact H2|]. left. split; [exact H3|].
+      unfold is_call; cbn. destruct (N.eqb_spec d c); [contradiction|discriminate].
+  - destruct (find_call d (calls s)) as [k0|] eqn:Ed;
+      [|exists k; split; [exact Hc|]; split; [repeat split|]; left; auto].
+    destruct (N.eqb_spec (k_pc k0) 3) as [Epc|Epc];
+      [|exists k; split; [exact Hc|]; split; [repeat split|]; left; auto].
+    destruct (k_fan k0) as [|b rest] eqn:Ef;
+      [exists k; split; [exact Hc|]; split; [repeat split|]; left; auto|].
+    destruct (tbl_get (k_lk k0) (k_peer k0)) as [u|] eqn:Elk;
+      [|exists k; split; [exact Hc|]; split; [repeat split|]; left; auto].
+    cbn [fst snd calls]. destruct (N.eq_dec d c) as [->|Hne].
+    + rewrite Hc in Ed. inversion Ed; subst k0. eexists. rewrite find_set_same by congruence.
+      split; [reflexivity|]. split; [repeat split|]. right; right; right; right. cbn.
+      repeat split; auto. exists b, rest, u. auto.
+    + destruct (Hother d (mkCall (k_peer k0) (k_lk k0) (k_ann k0) 3 (k_provs k0) rest) Hne)
+        as [k' [H1 [H2 H3]]]. exists k'. split; [exact H1|]. split; [exact H2|]. left. split; [exact H3|].
+      unfold is_call; cbn. destruct (N.eqb_spec d c); [contradiction|discriminate].
+  - cbn [fst snd calls]. exists k. split; [exact Hc|]. split; [repeat split|]. left. split; [reflexivity|].
+    unfold is_call; cbn; discriminate.
+Qed.
+
+(* a peer stays in the view unless a Disconnected names it *)
+Definition sdrops (e : sevent) (a : addr) (r : Z) : Prop :=
+  exists q, e = SOther (Disconnected q) /\ p_addr q = a /\ p_role q = r.
+
+Lemma view_kept s e a r : is_role r -> ~ sdrops e a r ->
+  In (mkPeer a r) (get_peers r (base s)) -> In (mkPeer a r) (get_peers r (base (fst (sstep s e)))).
+Proof.
+  intros Hr Hd Hin. destruct e as [d p lk ann|d|d|d|d|e]; cbn [sstep].
+  - destruct (find_call d (calls s)); cbn [fst base]; [exact Hin|]. apply view_add; [exact Hr|]. right; exact Hin.
+  - destruct (find_call d (calls s)) as [k|]; [|exact Hin]. destruct (k_pc k =? 0); exact Hin.
+  - destruct (find_call d (calls s)) as [k|]; [|exact Hin]. destruct (k_pc k =? 1); exact Hin.
+  - destruct (find_call d (calls s)) as [k|]; [|exact Hin]. destruct (k_pc k =? 2); [|exact Hin].
+    destruct (p_role (k_peer k) =? ROLE_PROVIDER)%Z; [|exact Hin]. destruct (tbl_get (k_lk k) (k_peer k)); exact Hin.
+  - destruct (find_call d (calls s)) as [k|]; [|exact Hin]. destruct (k_pc k =? 3); [|exact Hin].
+    destruct (k_fan k); [exact Hin|]. destruct (tbl_get (k_lk k) (k_peer k)); exact Hin.
+  - cbn [fst base]. apply view_step; [exact Hr|]. right. split; [exact Hin|].
+    intros [q [Hq [Ha Hb]]]. apply Hd. exists q. subst e. auto.
+Qed.
+
+(* NO LOSS, providers: a provider that is in the view when call c starts and is not disconnected
+   while c runs is announced to the newcomer (if its lookup succeeds) once c has passed its
+   announce step *)
+Section no_loss.
+  Context (l1 : list sevent) (c : N) (p : peer) (lk : list (peer * bytes)) (ann : list (peer * N)).
+  Context (Hfresh : find_call c (calls (srun l1)) = None).
+
+  Lemma no_loss_providers_inv a u :
+    In (mkPeer a ROLE_PROVIDER) (get_peers ROLE_PROVIDER (base (srun l1))) ->
+    a <> p_addr p -> tbl_get lk (mkPeer a ROLE_PROVIDER) = Some u ->
+    forall l2, (forall e, In e l2 -> ~ sdrops e a ROLE_PROVIDER) ->
+    let l := l1 ++ SAdd c p lk ann :: l2 in
+    exists k, find_call c (calls (srun l)) = Some k /\ k_peer k = p /\ k_lk k = lk /\ k_ann k = ann
+      /\ In (mkPeer a ROLE_PROVIDER) (get_peers ROLE_PROVIDER (base (srun l)))
+      /\ (1 <= k_pc k -> In (mkPeer a ROLE_PROVIDER) (k_provs k))
+      /\ (2 <= k_pc k -> exists recs, In (Announce p recs) (call_effects c l) /\ In (a, u) recs).
+  Proof.
+    intros Ha Hne Hlk l2. induction l2 as [|e l2 IH] using rev_ind; intros Hnd; cbn zeta.
+    - change (l1 ++ [SAdd c p lk ann]) with (l1 ++ [SAdd c p lk ann]). rewrite srun_snoc. cbn [sstep]. rewrite Hfresh.
+      cbn [fst calls base find_call]. rewrite N.eqb_refl. eexists. split; [reflexivity|]. cbn.
+      repeat split; auto; try (intros; lia).
+      apply (view_add a ROLE_PROVIDER p (base (srun l1))); [left; reflexivity|]. right; exact Ha.
+    - assert (Hnd' : forall e0, In e0 l2 -> ~ sdrops e0 a ROLE_PROVIDER)
+        by (intros e0 He0; apply Hnd, in_or_app; left; exact He0).
+      destruct (IH Hnd') as [k [Hk [Hp [Hl [Han [Hv [Hs Hr]]]]]]]. clear IH.
+      assert (El : l1 ++ SAdd c p lk ann :: l2 ++ [e] = (l1 ++ SAdd c p lk ann :: l2) ++ [e])
+        by (rewrite <- app_assoc; reflexivity).
+      rewrite El, srun_snoc, call_effects_snoc. set (l := l1 ++ SAdd c p lk ann :: l2) in *.
+      destruct (call_step (srun l) e c k Hk) as [k' [Hk' [[Sp [Sl Sa]] Hcases]]].
+      exists k'. split; [exact Hk'|]. split; [congruence|]. split; [congruence|]. split; [congruence|].
+      split; [apply view_kept; [left; reflexivity| apply Hnd, in_or_app; right; left; reflexivity | exact Hv]|].
+      destruct Hcases as [[-> _]|[[-> [P0 [P1 Hpr]]]|[[-> [P0 [P1 [Hpr Heff]]]]|[[-> [P0 [Hrole [Hpr Hb]]]]|[-> [P0 [P1 [Hpr _]]]]]]]].
+      + split; [exact Hs|]. intros H2. destruct (Hr H2) as [recs [Hi1 Hi2]]. exists recs. split; [apply in_or_app; left; exact Hi1|exact Hi2].
+      + split; [intros _; rewrite Hpr; exact Hv|intros H2; lia].
+      + split; [intros _; rewrite Hpr; apply Hs; lia|]. intros _.
+        assert (Hin : In (a, u) (records_for (k_peer k) (k_lk k) (k_provs k))).
+        { apply In_records_for. exists (mkPeer a ROLE_PROVIDER). rewrite Hp, Hl. repeat split; auto. apply Hs; lia. }
+        unfold is_call; cbn [call_of]. rewrite N.eqb_refl, Heff.
+        destruct (records_for (k_peer k) (k_lk k) (k_provs k)) as [|r0 rs] eqn:Er; [destruct Hin|].
+        exists (r0 :: rs). split; [|exact Hin]. apply in_or_app; right. rewrite Hp. unfold broadcast. left; reflexivity.
+      + split; [intros _; rewrite Hpr; apply Hs; lia|]. intros _.
+        destruct Hr as [recs [Hi1 Hi2]]; [lia|]. exists recs. split; [apply in_or_app; left; exact Hi1|exact Hi2].
+      + split; [intros _; rewrite Hpr; apply Hs; lia|]. intros _.
+        destruct Hr as [recs [Hi1 Hi2]]; [lia|]. exists recs. split; [apply in_or_app; left; exact Hi1|exact Hi2].
+  Qed.
+End no_loss.
+
+Section no_loss_b.
+  Context (l1 : list sevent) (c : N) (p : peer) (lk : list (peer * bytes)) (ann : list (peer * N)).
+  Context (Hfresh : find_call c (calls (srun l1)) = None).
+
+  Lemma no_loss_bidders_inv ab u :
+    In (mkPeer ab ROLE_BIDDER) (get_peers ROLE_BIDDER (base (srun l1))) ->
+    p_role p = ROLE_PROVIDER -> tbl_get lk p = Some u ->
+    forall l2, (forall e, In e l2 -> ~ sdrops e ab ROLE_BIDDER) ->
+    let l := l1 ++ SAdd c p lk ann :: l2 in
+    exists k, find_call c (calls (srun l)) = Some k /\ k_peer k = p /\ k_lk k = lk /\ k_ann k = ann
+      /\ In (mkPeer ab ROLE_BIDDER) (get_peers ROLE_BIDDER (base (srun l)))
+      /\ k_pc k <> 4
+      /\ (k_pc k = 3 -> In (mkPeer ab ROLE_BIDDER) (k_fan k)
+                        \/ In (Announce (mkPeer ab ROLE_BIDDER) [(p_addr p, u)]) (call_effects c l)).
+  Proof.
+    intros Hb Hrole Hlk l2. induction l2 as [|e l2 IH] using rev_ind; intros Hnd; cbn zeta.
+    - rewrite srun_snoc. cbn [sstep]. rewrite Hfresh.
+      cbn [fst calls base find_call]. rewrite N.eqb_refl. eexists. split; [reflexivity|]. cbn.
+      repeat split; auto; try (intros; discriminate).
+      apply (view_add ab ROLE_BIDDER p (base (srun l1))); [right; reflexivity|]. right; exact Hb.
+    - assert (Hnd' : forall e0, In e0 l2 -> ~ sdrops e0 ab ROLE_BIDDER)
+        by (intros e0 He0; apply Hnd, in_or_app; left; exact He0).
+      destruct (IH Hnd') as [k [Hk [Hp [Hl [Han [Hv [H4 H3]]]]]]]. clear IH.
+      assert (El : l1 ++ SAdd c p lk ann :: l2 ++ [e] = (l1 ++ SAdd c p lk ann :: l2) ++ [e])
+        by (rewrite <- app_assoc; reflexivity).
+      rewrite El, srun_snoc, call_effects_snoc. set (l := l1 ++ SAdd c p lk ann :: l2) in *.
+      destruct (call_step (srun l) e c k Hk) as [k' [Hk' [[Sp [Sl Sa]] Hcases]]].
+      exists k'. split; [exact Hk'|]. split; [congruence|]. split; [congruence|]. split; [congruence|].
+      split; [apply view_kept; [right; reflexivity| apply Hnd, in_or_app; right; left; reflexivity | exact Hv]|].
+      destruct Hcases as [[-> _]|[[-> [P0 [P1 Hpr]]]|[[-> [P0 [P1 [Hpr Heff]]]]|[[-> [P0 [Hr [Hpr Hbb]]]]|[-> [P0 [P1 [Hpr [b [rest [u' [Ef [Ef' [Elk Heff]]]]]]]]]]]]]].
+      + split; [exact H4|]. intros H. destruct (H3 H) as [Hi|Hi]; [left; exact Hi|right; apply in_or_app; left; exact Hi].
+      + split; [lia|intros H; lia].
+      + split; [lia|intros H; lia].
+      + destruct Hbb as [[u' [Elk [P3 Hf]]]|[Elk P4]].
+        * split; [lia|]. intros _. left. rewrite Hf. exact Hv.
+        * rewrite Hp, Hl in Elk. congruence.
+      + split; [lia|]. intros _. destruct (H3 P0) as [Hi|Hi].
+        * rewrite Ef in Hi. destruct Hi as [Hi|Hi].
+          -- right. apply in_or_app; right. unfold is_call; cbn [call_of]. rewrite N.eqb_refl, Heff.
+             rewrite Hp, Hl in Elk. assert (u' = u) by congruence. subst u' b. rewrite Hp. left; reflexivity.
+          -- left. rewrite Ef'. exact Hi.
+        * right. apply in_or_app; left; exact Hi.
+  Qed.
+End no_loss_b.
+
+(* ---------- the two no-loss theorems ---------- *)
+Definition call_completed (l : list sevent) (c : N) : Prop :=
+  exists k, find_call c (calls (srun l)) = Some k /\ call_done k = true.
+
+Theorem no_loss_providers l1 c p lk ann l2 a u :
+  find_call c (calls (srun l1)) = None ->
+  In (mkPeer a ROLE_PROVIDER) (get_peers ROLE_PROVIDER (base (srun l1))) ->
+  (forall e, In e l2 -> ~ sdrops e a ROLE_PROVIDER) ->
+  a <> p_addr p -> tbl_get lk (mkPeer a ROLE_PROVIDER) = Some u ->
+  call_completed (l1 ++ SAdd c p lk ann :: l2) c ->
+  exists recs, In (Announce p recs) (call_effects c (l1 ++ SAdd c p lk ann :: l2)) /\ In (a, u) recs.
+Proof.
+  intros Hf Ha Hnd Hne Hlk [k [Hk Hdone]].
+  destruct (no_loss_providers_inv l1 c p lk ann Hf a u Ha Hne Hlk l2 Hnd) as [k0 [Hk0 [_ [_ [_ [_ [_ Hr]]]]]]].
+  rewrite Hk in Hk0. inversion Hk0; subst k0. apply Hr.
+  unfold call_done in Hdone. apply orb_true_iff in Hdone. destruct Hdone as [Hdone|Hdone].
+  - apply orb_true_iff in Hdone. destruct Hdone as [Hdone|Hdone].
+    + apply N.eqb_eq in Hdone. lia.
+    + apply andb_true_iff in Hdone. destruct Hdone as [Hdone _]. apply N.eqb_eq in Hdone. lia.
+  - apply andb_true_iff in Hdone. destruct Hdone as [Hdone _]. apply N.eqb_eq in Hdone. lia.
+Qed.
+
+Theorem no_loss_bidders l1 c p lk ann l2 ab u :
+  find_call c (calls (srun l1)) = None ->
+  In (mkPeer ab ROLE_BIDDER) (get_peers ROLE_BIDDER (base (srun l1))) ->
+  (forall e, In e l2 -> ~ sdrops e ab ROLE_BIDDER) ->
+  p_role p = ROLE_PROVIDER -> tbl_get lk p = Some u ->
+  call_completed (l1 ++ SAdd c p lk ann :: l2) c ->
+  In (Announce (mkPeer ab ROLE_BIDDER) [(p_addr p, u)]) (call_effects c (l1 ++ SAdd c p lk ann :: l2)).
+Proof.
+  intros Hf Hb Hnd Hrole Hlk [k [Hk Hdone]].
+  destruct (no_loss_bidders_inv l1 c p lk ann Hf ab u Hb Hrole Hlk l2 Hnd) as [k0 [Hk0 [Hp [_ [_ [_ [H4 H3]]]]]]].
+  rewrite Hk in Hk0. inversion Hk0; subst k0.
+  unfold call_done in Hdone. apply orb_true_iff in Hdone. destruct Hdone as [Hdone|Hdone].
+  - apply orb_true_iff in Hdone. destruct Hdone as [Hdone|Hdone].
+    + apply N.eqb_eq in Hdone. contradiction.
+    + apply andb_true_iff in Hdone. destruct Hdone as [P3 Hnil]. apply N.eqb_eq in P3.
+      destruct (H3 P3) as [Hi|Hi]; [|exact Hi]. destruct (k_fan k); [destruct Hi|discriminate].
+  - apply andb_true_iff in Hdone. destruct Hdone as [_ Hnp]. rewrite Hp, Hrole in Hnp. discriminate.
+Qed.
+
+(* ---------- the atomic event is the uninterrupted call ---------- *)
+Lemma call_effects_from_cons s c e r :
+  call_effects_from s c (e :: r) = (if is_call c e then snd (sstep s e) else []) ++ call_effects_from (fst (sstep s e)) c r.
+Proof. reflexivity. Qed.
+
+Lemma fanout_run ann p u c : forall fan s k,
+  find_call c (calls s) = Some k -> k_pc k = 3 -> k_fan k = fan -> k_peer k = p -> k_ann k = ann ->
+  tbl_get (k_lk k) p = Some u ->
+  call_effects_from s c (repeat (SFanout c) (length fan))
+  = flat_map (fun b => broadcast ann b [(p_addr p, u)]) fan
+  /\ base (srun_from s (repeat (SFanout c) (length fan))) = base s.
+Proof.
+  induction fan as [|b rest IH]; intros s k Hk P3 Hf Hp Ha Hlk; [split; reflexivity|].
+  cbn [length repeat flat_map]. rewrite call_effects_from_cons. unfold is_call; cbn [call_of]. rewrite N.eqb_refl.
+  unfold srun_from; cbn [fold_left]. fold (srun_from (fst (sstep s (SFanout c))) (repeat (SFanout c) (length rest))).
+  cbn [sstep]. rewrite Hk, P3. cbn [N.eqb Pos.eqb]. rewrite Hf, Hp, Hlk. cbn [fst snd].
+  set (k1 := mkCall p (k_lk k) (k_ann k) 3 (k_provs k) rest).
+  set (s1 := mkS (base s) (set_call c k1 (calls s))).
+  assert (H1 : find_call c (calls s1) = Some k1) by (unfold s1; cbn [calls]; apply find_set_same; congruence).
+  destruct (IH s1 k1 H1 eq_refl eq_refl eq_refl Ha Hlk) as [E1 E2].
+  rewrite E1, E2, Ha. split; reflexivity.
+Qed.
+
+Theorem seq_connected s c p lk ann : find_call c (calls s) = None ->
+  let n := length (get_peers ROLE_BIDDER (add p (base s))) in
+  base (srun_from s (seq_call c p lk ann n)) = fst (step (base s) (Connected p lk ann))
+  /\ call_effects_from s c (seq_call c p lk ann n) = snd (step (base s) (Connected p lk ann)).
+Proof.
+  intros Hfresh n. unfold seq_call.
+  set (s1 := mkS (add p (base s)) ((c, mkCall p lk ann 0 [] []) :: calls s)).
+  set (provs := get_peers ROLE_PROVIDER (add p (base s))).
+  set (bids := get_peers ROLE_BIDDER (add p (base s))).
+  set (s2 := mkS (add p (base s)) ((c, mkCall p lk ann 1 provs []) :: calls s)).
+  set (s3 := mkS (add p (base s)) ((c, mkCall p lk ann 2 provs []) :: calls s)).
+  assert (E1 : sstep s (SAdd c p lk ann) = (s1, [])) by (cbn [sstep]; rewrite Hfresh; reflexivity).
+  assert (E2 : sstep s1 (SReadProviders c) = (s2, [])).
+  { cbn [sstep]. unfold s1; cbn [calls find_call]. rewrite N.eqb_refl. cbn [k_pc N.eqb set_call]. rewrite N.eqb_refl. reflexivity. }
+  assert (E3 : sstep s2 (SAnnounce c) = (s3, match records_for p lk provs with [] => [] | recs => broadcast ann p recs end)).
+  { cbn [sstep]. unfold s2; cbn [calls find_call]. rewrite N.eqb_refl. cbn [k_pc N.eqb Pos.eqb set_call]. rewrite N.eqb_refl. reflexivity. }
+  assert (Hrep : forall s0 m, sstep s0 (SFanout c) = (s0, []) ->
+            base (fold_left (fun acc e => fst (sstep acc e)) (repeat (SFanout c) m) s0) = base s0
+            /\ call_effects_from s0 c (repeat (SFanout c) m) = []).
+  { intros s0 m E. induction m as [|m IHm]; [split; reflexivity|]. cbn [repeat fold_left].
+    rewrite call_effects_from_cons, E. cbn [fst snd]. destruct IHm as [I1 I2]. rewrite I1, I2.
+    destruct (is_call c (SFanout c)); split; reflexivity. }
+  assert (Hic : forall e, call_of e = Some c -> is_call c e = true)
+    by (intros e He; unfold is_call; rewrite He; apply N.eqb_refl).
+  cbn [app]. unfold srun_from. cbn [fold_left]. rewrite !call_effects_from_cons.
+  rewrite !Hic by reflexivity.
+  rewrite E1; cbn [fst snd]. rewrite E2; cbn [fst snd]. rewrite E3; cbn [fst snd]. cbn [app].
+  cbn [step fst snd]. unfold connected_effects. fold provs bids.
+  destruct (p_role p =? ROLE_PROVIDER)%Z eqn:Er.
+  - destruct (tbl_get lk p) as [u|] eqn:Elk.
+    + set (k4 := mkCall p lk ann 3 provs bids).
+      set (s4 := mkS (add p (base s)) ((c, k4) :: calls s)).
+      assert (E4 : sstep s3 (SReadBidders c) = (s4, [])).
+      { cbn [sstep]. unfold s3; cbn [calls find_call]. rewrite N.eqb_refl.
+        cbn [k_pc N.eqb Pos.eqb k_peer k_lk k_ann k_provs]. rewrite Er, Elk. cbn [set_call base]. rewrite N.eqb_refl. reflexivity. }
+      rewrite E4; cbn [fst snd app].
+      assert (H4 : find_call c (calls s4) = Some k4) by (unfold s4; cbn [calls find_call]; rewrite N.eqb_refl; reflexivity).
+      destruct (fanout_run ann p u c bids s4 k4 H4 eq_refl eq_refl eq_refl eq_refl Elk) as [F1 F2].
+      unfold srun_from in F2. unfold n. fold bids. rewrite F1, F2. destruct (records_for p lk provs); split; reflexivity.
+    + set (s4 := mkS (add p (base s)) ((c, mkCall p lk ann 4 provs []) :: calls s)).
+      assert (E4 : sstep s3 (SReadBidders c) = (s4, [])).
+      { cbn [sstep]. unfold s3; cbn [calls find_call]. rewrite N.eqb_refl.
+        cbn [k_pc N.eqb Pos.eqb k_peer k_lk k_ann k_provs]. rewrite Er, Elk. cbn [set_call base]. rewrite N.eqb_refl. reflexivity. }
+      rewrite E4; cbn [fst snd app].
+      assert (E5 : sstep s4 (SFanout c) = (s4, [])).
+      { cbn [sstep]. unfold s4; cbn [calls find_call]. rewrite N.eqb_refl. reflexivity. }
+      destruct (Hrep s4 n E5) as [N1 N2]. rewrite N1, N2, !app_nil_r. destruct (records_for p lk provs); split; reflexivity.
+  - assert (E4 : sstep s3 (SReadBidders c) = (s3, [])).
+    { cbn [sstep]. unfold s3; cbn [calls find_call]. rewrite N.eqb_refl.
+      cbn [k_pc N.eqb Pos.eqb k_peer k_lk k_ann k_provs]. rewrite Er. reflexivity. }
+    rewrite E4; cbn [fst snd app].
+    assert (E5 : sstep s3 (SFanout c) = (s3, [])).
+    { cbn [sstep]. unfold s3; cbn [calls find_call]. rewrite N.eqb_refl. reflexivity. }
+    destruct (Hrep s3 n E5) as [N1 N2]. rewrite N1, N2, !app_nil_r. destruct (records_for p lk provs); split; reflexivity.
 Qed.
 
 (* ================= facts about the regenerated constants ================= *)
@@ -991,20 +1504,33 @@ Example ex_checker_rejects :
   case_violations (mkCase 0 0 [] [] [Connected exB1 exLk []; Connected exP1 exLk []]
      [mkObs [] [[]; []; [exB1]; []] [] [[]; [3]];
       mkObs [Announce exP1 [(1, bos "u1"); (3, bos "u3")]; Wire exP1 [(addr_bytes 1, bos "u1"); (addr_bytes 3, bos "u3")];
-             Announce exB1 [(1, bos "u1")]; Wire exB1 [(addr_bytes 1, bos "u1")]] [[]; [exP1]; [exB1]; []] [] [[1]; [3]]])
+             Announce exB1 [(1, bos "u1")]; Wire exB1 [(addr_bytes 1, bos "u1")]] [[]; [exP1]; [exB1]; []] [] [[1]; [3]]] [] [])
   = ["announce:self"; "announce:bidder"]%string
   /\ case_violations (mkCase 0 0 [] [] [Connected exP1 exLk []; Gossip exB1 true [(addr_bytes 1, bos "u1")]]
-     [mkObs [] [[]; [exP1]; []; []] [] [[1]; []]; mkObs [Dial (bos "u1")] [[]; [exP1]; []; []] [] [[1]; []]])
+     [mkObs [] [[]; [exP1]; []; []] [] [[1]; []]; mkObs [Dial (bos "u1")] [[]; [exP1]; []; []] [] [[1]; []]] [] [])
   = ["gossip:dialled-known"]%string
   /\ case_violations (mkCase 0 0 [] [] [Connected exP1 exLk []; Disconnected exP1]
-     [mkObs [] [[]; [exP1]; []; []] [] [[1]; []]; mkObs [] [[]; [exP1]; []; []] [] [[1]; []]])
+     [mkObs [] [[]; [exP1]; []; []] [] [[1]; []]; mkObs [] [[]; [exP1]; []; []] [] [[1]; []]] [] [])
   = ["view"]%string
   /\ (* the debug API keeps reporting a provider after its disconnect although GetPeers is right *)
      case_violations (mkCase 0 0 [] [] [Connected exP1 exLk []; Disconnected exP1]
-     [mkObs [] [[]; [exP1]; []; []] [] [[1]; []]; mkObs [] [[]; []; []; []] [] [[1]; []]])
+     [mkObs [] [[]; [exP1]; []; []] [] [[1]; []]; mkObs [] [[]; []; []; []] [] [[1]; []]] [] [])
   = ["view"]%string
   /\ (* a concurrent run that got stuck, and one that ended in the wrong provider set *)
-     case_violations (mkCase 0 1 [] [] [Connected exP1 exLk []] []) = ["view:hang"]%string
+     case_violations (mkCase 0 1 [] [] [Connected exP1 exLk []] [] [] []) = ["view:hang"]%string
   /\ case_violations (mkCase 0 1 [] [] [Connected exP1 exLk []; Disconnected exP1]
-        [mkObs [] [[]; [exP1]; []; []] [] [[1]; []]]) = ["view"]%string.
+        [mkObs [] [[]; [exP1]; []; []] [] [[1]; []]] [] []) = ["view"]%string.
 Proof. repeat split; reflexivity. Qed.
+
+(* overlapping calls: provider P (call 0) and bidder B (call 1) connect at the same time; B's
+   provider snapshot already contains P and P's bidder snapshot already contains B, so B is sent
+   P's record by both calls -- no linearisation of the atomic events does that, the step model does,
+   and both messages are sound; dropping either would still satisfy no-loss *)
+Definition exOverlap : list sevent :=
+  [SAdd 0 exP1 exLk []; SAdd 1 exB1 exLk []; SReadProviders 1; SAnnounce 1; SReadProviders 0; SAnnounce 0;
+   SReadBidders 0; SFanout 0; SReadBidders 1].
+Example ex_step_twice :
+  call_effects 1 exOverlap = [Announce exB1 [(1, bos "u1")]; Wire exB1 [(addr_bytes 1, bos "u1")]]
+  /\ call_effects 0 exOverlap = [Announce exB1 [(1, bos "u1")]; Wire exB1 [(addr_bytes 1, bos "u1")]]
+  /\ call_completed exOverlap 0 /\ call_completed exOverlap 1.
+Proof. repeat split; try reflexivity; eexists; split; reflexivity. Qed.
